@@ -237,6 +237,9 @@ func updateChildren(client *dynamicclientset.ResourceClient, updateStrategy Chil
 
 	for name, obj := range desired {
 		if ssaOptions.Strategy == ApplyStrategyServerSideApply {
+			// We always claim everything we create or apply, as the dynamic apply
+			// path below does on create.
+			obj.SetOwnerReferences(append(obj.GetOwnerReferences(), *MakeControllerRef(parent)))
 			data, err := json.Marshal(obj)
 			if err != nil {
 				errs = append(errs, err)
